@@ -158,6 +158,56 @@ def _tr_if(node: ast.If, var: str, fn: str) -> str:
     return 'if %s then %s\n  else %s' % (cond, then, els)
 
 
+def _tr_inst_expr(e: ast.expr, x: str) -> str:
+    """boolean expression over isinstance(x, root) / isinstance(x.data_type, root) / isinstance(x, pydsdl.Attribute)"""
+    if isinstance(e, ast.BoolOp):
+        parts = [_tr_inst_expr(v, x) for v in e.values]
+        f = 'orb' if isinstance(e.op, ast.Or) else 'andb'
+        out = parts[-1]
+        for p in reversed(parts[:-1]):
+            out = '(%s %s %s)' % (f, p, out)
+        return out
+    if isinstance(e, ast.UnaryOp) and isinstance(e.op, ast.Not):
+        return '(negb %s)' % _tr_inst_expr(e.operand, x)
+    if isinstance(e, ast.Constant) and isinstance(e.value, bool):
+        return 'true' if e.value else 'false'
+    if isinstance(e, ast.Call) and isinstance(e.func, ast.Name) and e.func.id == 'isinstance' and len(e.args) == 2 and not e.keywords:
+        a, c = e.args
+        if isinstance(a, ast.Name) and a.id == x:
+            subj = 'vc'
+        elif isinstance(a, ast.Attribute) and a.attr == 'data_type' and isinstance(a.value, ast.Name) and a.value.id == x:
+            subj = 'vdt'
+        else:
+            raise Unsupported('isinstance subject %s' % ast.dump(a)[:80])
+        if isinstance(c, ast.Name) and c.id == 'root':
+            return '(isinst %s root)' % subj
+        if isinstance(c, ast.Attribute) and c.attr == 'Attribute' and isinstance(c.value, ast.Name) and c.value.id == 'pydsdl':
+            return '(isinst %s attr)' % subj
+        raise Unsupported('isinstance class %s' % ast.dump(c)[:80])
+    raise Unsupported('test expression %s' % ast.dump(e)[:100])
+
+
+def _tr_inst_block(body: typing.List[ast.stmt], x: str) -> str:
+    body = [s for s in body if not (isinstance(s, ast.Expr) and isinstance(s.value, ast.Constant))]
+    if not body:
+        raise Unsupported('test function falls off its end')
+    st = body[0]
+    if isinstance(st, ast.Return) and st.value is not None:
+        return _tr_inst_expr(st.value, x)
+    if isinstance(st, ast.If):
+        rest = body[1:]
+        then = _tr_inst_block(st.body + rest, x)
+        els = _tr_inst_block(st.orelse + rest, x)
+        return '(if %s then %s else %s)' % (_tr_inst_expr(st.test, x), then, els)
+    raise Unsupported('statement %s in the instance test' % type(st).__name__)
+
+
+def translate_field_is_instance(fn: ast.FunctionDef) -> str:
+    if len(fn.args.args) != 1 or fn.args.vararg or fn.args.kwarg or fn.args.kwonlyargs:
+        raise Unsupported('unexpected signature of the instance test')
+    return _tr_inst_block(fn.body, fn.args.args[0].arg)
+
+
 def translate_alias_rule(mod: ast.Module) -> typing.Tuple[str, typing.List[str]]:
     """returns (Gallina body of alias_key over `root_name_lower`, root class names of _create_all_dsdl_tests)"""
     cls = next((n for n in mod.body if isinstance(n, ast.ClassDef) and n.name == 'DSDLCodeGenerator'), None)
@@ -181,6 +231,7 @@ def translate_alias_rule(mod: ast.Module) -> typing.Tuple[str, typing.List[str]]
     if not isinstance(s_def, ast.FunctionDef):
         raise Unsupported('second statement is not the nested test function')
     fn = s_def.name
+    inst_body = translate_field_is_instance(s_def)
     root_name = ast.Attribute(value=ast.Name(id='root', ctx=ast.Load()), attr='__name__', ctx=ast.Load())
     if not (isinstance(s_full, ast.Assign) and ast.dump(s_full.targets[0]) == ast.dump(
             ast.Subscript(value=ast.Name(id='tests', ctx=ast.Load()), slice=root_name, ctx=ast.Store()))
@@ -212,7 +263,7 @@ def translate_alias_rule(mod: ast.Module) -> typing.Tuple[str, typing.List[str]]
     roots = [r[2] for r in sorted(roots)]
     if not roots:
         raise Unsupported('no root classes found in _create_all_dsdl_tests')
-    return (var, rule), roots
+    return (var, rule), roots, inst_body
 
 
 def reserved_sets(mod: ast.Module) -> typing.Tuple[typing.List[str], typing.List[str]]:
@@ -232,8 +283,10 @@ def reserved_sets(mod: ast.Module) -> typing.Tuple[typing.List[str], typing.List
     return got['RESERVED_GLOBAL_NAMESPACES'], got['RESERVED_GLOBAL_NAMES']
 
 
-def init_written(mod: ast.Module) -> typing.Tuple[bool, typing.List[str]]:
-    """names CodeGenEnvironment.__init__ assigns in self.globals itself: (loop over RESERVED_GLOBAL_NAMESPACES present?, literal names)"""
+def init_shape(mod: ast.Module, reserved: typing.Dict[str, typing.List[str]]) -> dict:
+    """CodeGenEnvironment.__init__: the gate on additional_globals (T2), the names it assigns in self.globals itself and the ORDER of
+    the steps the hand model relies on (user globals < reserved namespaces < literal globals < language support < own conventional
+    methods < user filters < user tests).  Any other shape fails closed."""
     cls = next((n for n in mod.body if isinstance(n, ast.ClassDef) and n.name == 'CodeGenEnvironment'), None)
     init = next((n for n in cls.body if isinstance(n, ast.FunctionDef) and n.name == '__init__'), None) if cls else None
     if init is None:
@@ -242,23 +295,96 @@ def init_written(mod: ast.Module) -> typing.Tuple[bool, typing.List[str]]:
     def is_globals_item(t):
         return (isinstance(t, ast.Subscript) and isinstance(t.value, ast.Attribute) and t.value.attr == 'globals'
                 and isinstance(t.value.value, ast.Name) and t.value.value.id == 'self')
-    loop, lits = False, []
-    for st in init.body:
-        if isinstance(st, ast.For) and isinstance(st.iter, ast.Attribute) and st.iter.attr == 'RESERVED_GLOBAL_NAMESPACES' \
+
+    def self_attr(e):
+        return e.attr if isinstance(e, ast.Attribute) and isinstance(e.value, ast.Name) and e.value.id == 'self' else None
+
+    def gate_refs(test, var):
+        if isinstance(test, ast.BoolOp) and isinstance(test.op, ast.Or):
+            return [r for v in test.values for r in gate_refs(v, var)]
+        if isinstance(test, ast.Compare) and len(test.ops) == 1 and isinstance(test.ops[0], ast.In) \
+                and isinstance(test.left, ast.Name) and test.left.id == var:
+            c = test.comparators[0]
+            elts = c.elts if isinstance(c, (ast.Tuple, ast.List, ast.Set)) else [ast.Starred(value=c)]
+            refs = []
+            for e in elts:
+                a = self_attr(e.value) if isinstance(e, ast.Starred) else None
+                if a is None:
+                    raise Unsupported('gate on additional_globals tests membership in something else than self.<collection>')
+                refs.append(a)
+            return refs
+        raise Unsupported('gate on additional_globals is not a disjunction of `name in ...` tests')
+
+    pos = {}
+    lits = []
+    gate = None
+    for i, st in enumerate(init.body):
+        # if additional_globals is not None: for name, value in additional_globals.items(): if <gate>: raise ...; self.globals[name] = value
+        if isinstance(st, ast.If) and 'additional_globals' in ast.dump(st.test) and len(st.body) == 1 and isinstance(st.body[0], ast.For):
+            loop = st.body[0]
+            if not (isinstance(loop.target, ast.Tuple) and len(loop.target.elts) == 2 and all(isinstance(e, ast.Name) for e in loop.target.elts)
+                    and len(loop.body) == 2 and isinstance(loop.body[0], ast.If) and len(loop.body[0].body) == 1
+                    and isinstance(loop.body[0].body[0], ast.Raise) and not loop.body[0].orelse
+                    and isinstance(loop.body[1], ast.Assign) and is_globals_item(loop.body[1].targets[0])
+                    and isinstance(loop.body[1].targets[0].slice, ast.Name) and loop.body[1].targets[0].slice.id == loop.target.elts[0].id
+                    and isinstance(loop.body[1].value, ast.Name) and loop.body[1].value.id == loop.target.elts[1].id):
+                raise Unsupported('loop over additional_globals has an unexpected shape')
+            gate = gate_refs(loop.body[0].test, loop.target.elts[0].id)
+            pos['user_globals'] = i
+        elif isinstance(st, ast.For) and isinstance(st.iter, ast.Attribute) and st.iter.attr == 'RESERVED_GLOBAL_NAMESPACES' \
                 and isinstance(st.target, ast.Name) and len(st.body) == 1 and isinstance(st.body[0], ast.Assign) \
                 and is_globals_item(st.body[0].targets[0]) and isinstance(st.body[0].targets[0].slice, ast.Name) \
                 and st.body[0].targets[0].slice.id == st.target.id:
-            loop = True
+            pos['namespaces'] = i
         elif isinstance(st, ast.Assign) and len(st.targets) == 1 and is_globals_item(st.targets[0]):
             sl = st.targets[0].slice
             if not (isinstance(sl, ast.Constant) and isinstance(sl.value, str)):
                 raise Unsupported('self.globals[...] assigned with a non-literal key in __init__')
             lits.append(sl.value)
-    return loop, lits
+            pos.setdefault('literals', i)
+            pos['literals_last'] = i
+        elif isinstance(st, ast.Expr) and isinstance(st.value, ast.Call) and self_attr(st.value.func) == '_update_language_support':
+            pos['language'] = i
+        elif isinstance(st, ast.Expr) and isinstance(st.value, ast.Call) and self_attr(st.value.func) == 'add_conventional_methods_to_environment':
+            pos['own_methods'] = i
+        elif isinstance(st, ast.If) and 'additional_filters' in ast.dump(st.test) and '_add_each_to_environment' in ast.dump(st):
+            pos['user_filters'] = i
+        elif isinstance(st, ast.If) and 'additional_tests' in ast.dump(st.test) and '_add_each_to_environment' in ast.dump(st):
+            pos['user_tests'] = i
+        elif any(is_globals_item(t) for n in ast.walk(st) if isinstance(n, (ast.Assign, ast.AugAssign, ast.Delete))
+                 for t in (n.targets if hasattr(n, 'targets') else [n.target])):
+            raise Unsupported('__init__ writes self.globals in a statement the model does not know')
+    order = ['user_globals', 'namespaces', 'literals', 'literals_last', 'language', 'own_methods', 'user_filters', 'user_tests']
+    if any(k not in pos for k in order):
+        raise Unsupported('__init__ lacks step(s): %s' % [k for k in order if k not in pos])
+    if [pos[k] for k in order] != sorted(pos[k] for k in order):
+        raise Unsupported('steps of __init__ are not in the order the model assumes: %s' % pos)
+    if gate is None:
+        raise Unsupported('gate on additional_globals not found')
+    gate_names = []
+    for r in gate:
+        if r in reserved:
+            gate_names += reserved[r]
+        elif r != 'globals':
+            raise Unsupported('gate refers to self.%s' % r)
+    return {'written': reserved['RESERVED_GLOBAL_NAMESPACES'] + lits, 'gate_reserved': sorted(set(gate_names)),
+            'gate_checks_existing': 'globals' in gate, 'gate_refs': gate}
+
+
+def template_suffix() -> str:
+    mod = gen.parse_repo('src/nunavut/_utilities.py')
+    for st in mod.body:
+        t = st.targets[0] if isinstance(st, ast.Assign) and len(st.targets) == 1 else (st.target if isinstance(st, ast.AnnAssign) else None)
+        if isinstance(t, ast.Name) and t.id == 'TEMPLATE_SUFFIX' and isinstance(st.value, ast.Constant) and isinstance(st.value.value, str):
+            if not st.value.value.isascii() or not st.value.value:
+                raise Unsupported('TEMPLATE_SUFFIX is empty or not ASCII')
+            return st.value.value
+    raise Unsupported('TEMPLATE_SUFFIX not found')
 
 
 def builtin_templates() -> typing.Dict[str, typing.List[str]]:
-    """relative POSIX paths of *.j2 below src/nunavut/lang/<lang>/templates (what PackageLoader.list_templates + the suffix filter yield)"""
+    """relative POSIX paths of ALL files below src/nunavut/lang/<lang>/templates, sorted (what PackageLoader.list_templates yields;
+    the suffix filter and the stem are applied by the model: Lookup.mk_tset)"""
     base = os.path.join(gen.REPO, 'src', 'nunavut', 'lang')
     out = {}
     for lang in sorted(os.listdir(base)):
@@ -267,8 +393,10 @@ def builtin_templates() -> typing.Dict[str, typing.List[str]]:
             continue
         names = []
         for root, _, files in os.walk(t):
+            if '__pycache__' in root.split(os.sep):
+                continue
             for f in files:
-                if f.endswith('.j2'):
+                if f.isascii():
                     names.append(os.path.relpath(os.path.join(root, f), t).replace(os.sep, '/'))
         out[lang] = sorted(names)
     return out
@@ -287,9 +415,9 @@ def data() -> dict:
     """everything the generator reads from /repo (also used by the check to drive the correspondence run)"""
     jj = gen.parse_repo('src/nunavut/jinja/__init__.py')
     ee = gen.parse_repo('src/nunavut/jinja/environment.py')
-    rule, roots = translate_alias_rule(jj)
+    rule, roots, inst_body = translate_alias_rule(jj)
     ns, nm = reserved_sets(ee)
-    loop, lits = init_written(ee)
+    shape = init_shape(ee, {'RESERVED_GLOBAL_NAMESPACES': ns, 'RESERVED_GLOBAL_NAMES': nm})
     tpl = builtin_templates()
     langs = [l for l in tpl if os.path.exists(os.path.join(gen.REPO, 'src', 'nunavut', 'lang', l, '__init__.py'))]
     d = dump(roots, langs)
@@ -299,7 +427,9 @@ def data() -> dict:
         if not c['name'].isascii():
             raise Unsupported('non-ASCII class name')
     d.update({'alias_rule': rule, 'roots_order': roots, 'reserved_namespaces': ns, 'reserved_names': nm, 'templates': tpl,
-              'init_written': (ns if loop else []) + lits})
+              'init_written': shape['written'], 'gate_reserved': shape['gate_reserved'],
+              'gate_checks_existing': shape['gate_checks_existing'], 'gate_refs': shape['gate_refs'],
+              'field_is_instance': inst_body, 'template_suffix': template_suffix()})
     return d
 
 
@@ -324,11 +454,9 @@ def render(d: dict) -> str:
     L.append('Definition g_test_order : list N := [%s].\n' % '; '.join(str(ident[n]) for n in order))
     L.append('(* T2: alias rule of DSDLCodeGenerator._create_instance_tests_for_type *)')
     L.append('Definition alias_key (%s : str) : str :=\n  %s.\n' % tuple(d['alias_rule']))
-    L.append('(* built-in template packages: (language, listing of (stem, relative path)) *)')
-    L.append('Definition g_builtin_templates : list (str * list (str * str)) :=\n  [' + ';\n   '.join(
-        '(%s (* %s *),\n    [%s])' % (coq_str(lang), lang, ';\n     '.join(
-            '(%s, %s) (* %s *)' % (coq_str(os.path.basename(p)[:-3]), coq_str(p), p) for p in names))
-        for lang, names in sorted(d['templates'].items())) + '].\n')
+    L.append('(* built-in template packages: (language, sorted listing of relative paths -- every file, not only templates) *)')
+    L.append('Definition g_builtin_listings : list (str * list str) :=\n  [' + ';\n   '.join(
+        '(%s (* %s *),\n    %s)' % (coq_str(lang), lang, coq_strs(names, '     ')) for lang, names in sorted(d['templates'].items())) + '].\n')
     L.append('Definition g_jinja_tests : list str :=\n  %s.\n' % coq_strs(d['jinja_tests']))
     L.append('Definition g_jinja_filters : list str :=\n  %s.\n' % coq_strs(d['jinja_filters']))
     L.append('Definition g_jinja_globals : list str :=\n  %s.\n' % coq_strs(d['jinja_globals']))
@@ -336,6 +464,13 @@ def render(d: dict) -> str:
     L.append('Definition g_reserved_names : list str :=\n  %s.\n' % coq_strs(d['reserved_names']))
     L.append('(* names CodeGenEnvironment.__init__ assigns in self.globals itself after the user\'s additional_globals *)')
     L.append('Definition g_init_written : list str :=\n  %s.\n' % coq_strs(d['init_written']))
+    L.append('(* T2: the gate of CodeGenEnvironment.__init__ on additional_globals: name in the union of %s *)' % ', '.join('self.' + r for r in d['gate_refs']))
+    L.append('Definition g_gate_reserved : list str :=\n  %s.\n' % coq_strs(d['gate_reserved']))
+    L.append('Definition g_gate_checks_existing : bool := %s.\n' % ('true' if d['gate_checks_existing'] else 'false'))
+    L.append('(* T2: body of _field_is_instance; isinst a b = isinstance(<object of class a>, <class b>); vc = class of the value, '
+             'vdt = class of value.data_type *)')
+    L.append('Definition g_field_is_instance (isinst : N -> N -> bool) (attr root vc vdt : N) : bool :=\n  %s.\n' % d['field_is_instance'])
+    L.append('Definition g_template_suffix : str := %s. (* TEMPLATE_SUFFIX = %r *)\n' % (coq_str(d['template_suffix']), d['template_suffix']))
     L.append('(* names in a fresh CodeGenEnvironment per target language (before DSDL tests and user additions) *)')
     for kind in ('tests', 'filters', 'globals'):
         L.append('Definition g_env_%s : list (str * list str) :=\n  [' % kind + ';\n   '.join(
@@ -360,4 +495,25 @@ def gen_lookup() -> typing.Tuple[bool, str]:
     return True, 'ok'
 
 
-GENERATORS = {'lookup': gen_lookup}
+PIN_LOADER = [('src/nunavut/jinja/loaders.py', 'DSDLTemplateLoader.__init__'),
+              ('src/nunavut/jinja/loaders.py', 'DSDLTemplateLoader.get_source'),
+              ('src/nunavut/jinja/loaders.py', 'DSDLTemplateLoader.type_to_template'),
+              ('src/nunavut/jinja/loaders.py', 'DSDLTemplateLoader._filter_template_list_by_suffix'),
+              ('src/nunavut/jinja/loaders.py', 'DSDLTemplateLoader._type_to_template_internal'),
+              ('src/nunavut/jinja/__init__.py', 'DSDLCodeGenerator.filter_type_to_template')]
+PIN_ENV = [('src/nunavut/jinja/environment.py', 'CodeGenEnvironment._add_to_environment'),
+           ('src/nunavut/jinja/environment.py', 'CodeGenEnvironment.add_test'),
+           ('src/nunavut/jinja/environment.py', 'CodeGenEnvironment._add_each_to_environment')]
+
+
+def pin_c16_loader():
+    from . import shape_pin
+    return shape_pin.check_pin('c16_loader', PIN_LOADER)
+
+
+def pin_c16_env():
+    from . import shape_pin
+    return shape_pin.check_pin('c16_env', PIN_ENV)
+
+
+GENERATORS = {'lookup': gen_lookup, 'pin_c16_loader': pin_c16_loader, 'pin_c16_env': pin_c16_env}
